@@ -422,8 +422,9 @@ export class SchemaPrintingContext {
   constructor(options: SchemaPrintingContextOptions) {
     this.refPathTemplate = options.refPathTemplate;
     this.definitionContainerKey = options.definitionContainerKey;
-    this.collectedDefinitions = {};
-    this.inProgressDefinitions = {};
+    // type names are arbitrary identifiers (`toString`, `constructor`, `__proto__`): no inherited keys
+    this.collectedDefinitions = Object.create(null);
+    this.inProgressDefinitions = Object.create(null);
     this.namedTypeSchemaOverrides = Object.fromEntries(
       Object.entries(options.namedTypeSchemaOverrides ?? {}).map(([name, parser]) => [
         name,
@@ -437,7 +438,8 @@ export class SchemaPrintingContext {
   }
 
   getRef(name: string): string {
-    return this.refPathTemplate.replace("{name}", name);
+    // a replacer function: `$$`, `$&` … in a type name are not substitution patterns
+    return this.refPathTemplate.replace("{name}", () => name);
   }
 
   hasDefinition(name: string): boolean {
@@ -449,7 +451,9 @@ export class SchemaPrintingContext {
   }
 
   getNamedTypeSchemaOverride(name: string): Runtype | undefined {
-    return this.namedTypeSchemaOverrides[name];
+    return Object.prototype.hasOwnProperty.call(this.namedTypeSchemaOverrides, name)
+      ? this.namedTypeSchemaOverrides[name]
+      : undefined;
   }
 
   markDefinitionInProgress(name: string): void {
@@ -1804,7 +1808,7 @@ export class AnyOfDiscriminatedRuntype extends BaseRuntype {
     });
   }
   private getSchemaVariantRefs(ctx: SchemaContext): Array<{ key: string; ref: string }> {
-    const unionHash = this.hash({ seen: {} });
+    const unionHash = this.hash({ seen: Object.create(null) });
     return Object.entries(this.schemaMapping).map(([key, schema]) => ({
       key,
       ref: this.ensureSchemaVariantRef(schema, key, unionHash, ctx),
@@ -2528,7 +2532,7 @@ class ParserFromRuntype implements BeffParser<any> {
   schema(): JSONSchema7 {
     const ctx = {
       path: [],
-      seen: {},
+      seen: Object.create(null),
       mode: "flat" as const,
     };
     return this._runtype.schema(ctx);
@@ -2536,7 +2540,7 @@ class ParserFromRuntype implements BeffParser<any> {
   schemaWithContext(schemaPrintingContext: SchemaPrintingContext): JSONSchema7 {
     const ctx = {
       path: [],
-      seen: {},
+      seen: Object.create(null),
       mode: "contextual" as const,
       printingContext: schemaPrintingContext,
     };
@@ -2545,8 +2549,8 @@ class ParserFromRuntype implements BeffParser<any> {
   describe(): string {
     const ctx: DescribeContext = {
       activeRefs: new Set(),
-      definitions: {},
-      refCounts: {},
+      definitions: Object.create(null),
+      refCounts: Object.create(null),
       visitedRefs: new Set(),
     };
     collectDescribeRefs(this._runtype, ctx);
@@ -2565,7 +2569,7 @@ class ParserFromRuntype implements BeffParser<any> {
   }
   hash(): number {
     const ctx = {
-      seen: {},
+      seen: Object.create(null),
     };
     return this._runtype.hash(ctx);
   }
